@@ -26,3 +26,16 @@ pub fn wrong_name_listener() {
         eprintln!("sni seen: {:?}", seen.seen_sni.lock().unwrap());
     });
 }
+
+pub fn governor_burst() {
+    use governor::{Quota, RateLimiter};
+    use std::num::NonZeroU32;
+    for b in [1u32, 3] {
+        let q = Quota::with_period(std::time::Duration::from_millis(40)).unwrap().allow_burst(NonZeroU32::new(b).unwrap());
+        let l = RateLimiter::keyed(q);
+        let fresh = (0..10).filter(|_| l.check_key(&1u8).is_ok()).count();
+        std::thread::sleep(std::time::Duration::from_millis(40 * (b as u64 + 2)));
+        let after_idle = (0..10).filter(|_| l.check_key(&1u8).is_ok()).count();
+        eprintln!("burst {b}: fresh key admits {fresh} at once; after a long idle period {after_idle} at once");
+    }
+}
